@@ -550,6 +550,7 @@ CORE_CFGS = {
     "pub2": (["A", "B"], {"VP_CAP": "2", "VP_CTXPERSIST": "1", "VP_SETUP": "loop2"}),
     "ps3": (["A", "B", "C"], {"VP_CAP": "2", "VP_CTXPERSIST": "1", "VP_SETUP": "loop3"}),
     "sysmq": (["A", "B"], {"VP_CAP": "2", "VP_CTXPERSIST": "1", "VP_SETUP": "loop2"}),
+    "sysos": (["A", "B"], {"VP_CAP": "2", "VP_CTXPERSIST": "1", "VP_SETUP": "loop2"}),
     "sysm": (["A", "B"], {"VP_CAP": "2", "VP_CTXPERSIST": "1", "VP_SETUP": "loop2"}),
     "sysc": (["A", "B"], {"VP_CAP": "3", "VP_CTXPERSIST": "1"}),
     "srca": (["A"], {"VP_CAP": "2", "VP_CTXPERSIST": "1", "VP_NKEYS": "2"}),
@@ -643,7 +644,7 @@ def c08(prop, tier, seed):
 
 @check("C19")
 def c19(prop, tier, seed):
-    return core_check(prop, tier, seed, ["sysmq", "sysc", "tick", "tickh"], ["sysm", "sysc", "sysmq", "tick", "tickh"],
+    return core_check(prop, tier, seed, ["sysmq", "sysos", "sysc", "tick", "tickh"], ["sysm", "sysos", "sysc", "sysmq", "tick", "tickh"],
                       "Focus: subscriptions to the system topics; notifications are ordinary mailbox messages (sender, topic, system flag compared).")
 
 
